@@ -135,10 +135,18 @@ def provisional_sources(repo):
             for mk in marks:
                 # later: self.mk = True / self.mk.add(..)  ... then reset
                 sets, resets = [], []
+                # the marker may be set / cleared by another method of the class (the test in the reader, the mark around the writer)
+                setters = [fi.node] + [m.node for m in fi.cls.methods.values() if m.node is not fi.node]
+                where = {}
+                for fn_ in setters:
+                    for n in ast.walk(fn_):
+                        if isinstance(n, ast.Assign) and any(unparse(t) == 'self.' + mk for t in n.targets) \
+                                and isinstance(n.value, ast.Constant) and fn_.name != '__init__':
+                            (sets if n.value.value else resets).append(n)
+                            where[id(n)] = fn_
+                    if sets and resets and fn_ is fi.node:
+                        break
                 for n in ast.walk(fi.node):
-                    if isinstance(n, ast.Assign) and unparse(n.targets[-1]) == 'self.' + mk \
-                            and isinstance(n.value, ast.Constant):
-                        (sets if n.value.value else resets).append(n)
                     if isinstance(n, ast.Call) and isinstance(n.func, ast.Attribute) \
                             and unparse(n.func.value) == 'self.' + mk:
                         if n.func.attr in ('add', 'append'):
@@ -146,9 +154,10 @@ def provisional_sources(repo):
                         elif n.func.attr in ('remove', 'discard', 'pop'):
                             resets.append(n)
                 if sets and resets:
-                    safe = all(_in_finally(r, fi.node) for r in resets)
+                    safe = all(_in_finally(r, where.get(id(r), fi.node)) for r in resets)
+                    split = any(where.get(id(x), fi.node) is not fi.node for x in sets + resets)
                     # completeness: no call may be made between the guard test and the first marker-set statement
-                    first_set = min(x.lineno for x in sets)
+                    first_set = min(x.lineno for x in sets) if not split else st.lineno
                     bypass = [c for c in ast.walk(fi.node) if isinstance(c, ast.Call) and st.lineno < c.lineno < first_set
                               and not any(c is y for y in ast.walk(st.test))
                               and unparse(c.func) not in ('isinstance', 'type', 'len', 'hasattr', 'getattr', 'frozenset', 'tuple', 'list', 'set', 'id')]
@@ -290,6 +299,14 @@ def rule_provisional_memo(repo, res, rule, only_cycle=None):
             continue
         if g.qual not in BY_CONSTRUCTION:
             if g.qual not in EXCLUDED_GUARDS:
+                if not p['reset_safe']:
+                    # whatever its cycle is: a marker that an exception leaves set makes the object answer its sentinel for ever
+                    res.check('C04-R2', '%s resets %s' % (g.qual, p['marker']), False, g.rel, g.node.lineno,
+                              '%s answers %s while the in-progress marker %s is set; the marker is cleared outside a finally: when the '
+                              'guarded computation raises (a syntax error in a file it reads) the marker stays set and every later query '
+                              'through the same object - it may live in a cache across requests - sees the sentinel instead of the real '
+                              'value' % (g.qual, p['sentinel'], p['marker']))
+                    continue
                 raise AnalysisError('new re-entrancy-guarded function %s: triage whether its cycle exists by '
                                     'construction (C04-R1)' % g.qual)
             on = [s['fi'].qual for s in sites if g.key in cg.reach(s['key'], True) and s['key'] in cg.reach(g.key, True)]
